@@ -1315,6 +1315,12 @@ impl<'a> Sem<'a> {
                 6 if self.on("template-arg-types") => Ty::Bits(4),
                 7 if self.on("template-arg-types") => Ty::List(Box::new(Ty::Int)),
                 8 if self.on("template-arg-types") => Ty::List(Box::new(Ty::Str)),
+                // a parameter of class type: its arguments are records, often written as class values
+                // `Inner<1>` nested in the outer argument list
+                9 | 10 if self.on("class-typed-template-arg") && !self.classes.is_empty() => {
+                    let c = self.classes[self.rng.below(self.classes.len())].name.clone();
+                    Ty::Class(c)
+                }
                 _ => Ty::Int,
             };
             self.write_type(&ty);
